@@ -406,7 +406,7 @@ sds_write_header (SF_PRIVATE *psf, int calc_length)
 		return psf->error ;
 
 	psf->dataoffset = psf->header.indx ;
-	psf->datalength = psds->write_block * SDS_BLOCK_SIZE ;
+	psf->datalength = (sf_count_t) psds->write_block * SDS_BLOCK_SIZE ;
 
 	if (current > 0)
 		psf_fseek (psf, current, SEEK_SET) ;
@@ -726,7 +726,7 @@ sds_seek (SF_PRIVATE *psf, int mode, sf_count_t seek_from_start)
 				return PSF_SEEK_ERROR ;
 				} ;
 
-			file_offset = psf->dataoffset + newblock * SDS_BLOCK_SIZE ;
+			file_offset = psf->dataoffset + (sf_count_t) newblock * SDS_BLOCK_SIZE ;
 
 			if (psf_fseek (psf, file_offset, SEEK_SET) != file_offset)
 			{	psf->error = SFE_SEEK_FAILED ;
@@ -744,7 +744,7 @@ sds_seek (SF_PRIVATE *psf, int mode, sf_count_t seek_from_start)
 				return PSF_SEEK_ERROR ;
 				} ;
 
-			file_offset = psf->dataoffset + newblock * SDS_BLOCK_SIZE ;
+			file_offset = psf->dataoffset + (sf_count_t) newblock * SDS_BLOCK_SIZE ;
 
 			if (psf_fseek (psf, file_offset, SEEK_SET) != file_offset)
 			{	psf->error = SFE_SEEK_FAILED ;
